@@ -6,6 +6,7 @@ import Driver.AssocDrv
 import Driver.CollDrv
 import Driver.CdcnDrv
 import Driver.QDrv
+import Driver.FacadeDrv
 open Lean Drv
 
 def handle (line : String) : String :=
@@ -30,6 +31,7 @@ def handle (line : String) : String :=
     | "qtrace" => qtraceLine j
     | "qctor" => qctorLine j
     | "pipe" => pipeLine j
+    | "facade" => facadeLine j
     | "qmeta" => verdict true true "meta" ""
     | k => verdict false true "bad-kind" k
 
